@@ -24,6 +24,20 @@ class Body(Task):
     def execute(self):
         me = os.environ.get("XV_PROC", f"x{self.x}")
         _emit(self.log, {"e": "begin", "p": me, "pid": os.getpid()})
+        if os.environ.get("XV_FORK") == "1":
+            # task code that forks (multiprocessing, subprocess with preexec_fn, ...): the child leaves at once
+            child = os.fork()
+            if child == 0:
+                os._exit(0)
+            os.waitpid(child, 0)
+        if os.environ.get("XV_FORK") == "loop":
+            # ... or forks again and again for half a second (worker pools, subprocess calls)
+            t0 = time.time()
+            while time.time() - t0 < 0.5:
+                child = os.fork()
+                if child == 0:
+                    os._exit(0)
+                os.waitpid(child, 0)
         if self.gatedir:
             gate = Path(self.gatedir) / f"gate.{me}"
             while not gate.exists():
